@@ -332,6 +332,12 @@ func finishCheck(o CheckOpts, w *World, reports []*OblReport, fnReports []FnRepo
 			unsupported = append(unsupported, fmt.Sprintf("%s: program points unreachable under the preconditions: %s", fnKey(ft.fn), strings.Join(names, ", ")))
 		}
 	}
+	for _, r := range reports {
+		if r.Result == "disagree" {
+			fmt.Fprintf(os.Stderr, "govc: SOLVER DISAGREEMENT on %s: %v\n", r.Name, r.res.All)
+			return 2
+		}
+	}
 	if len(canaryBad) > 0 {
 		for _, c := range canaryBad {
 			fmt.Fprintf(os.Stderr, "govc: VACUITY: canary %s was proved (contradictory contract or lost path)\n", c)
